@@ -49,6 +49,8 @@ def judge_impl(cases, obs):
     subscriber's own end (terminal delivered or unsubscribe returned) all of them must be."""
     out = []
     for i, ((sc, info), ob) in enumerate(zip(cases, obs)):
+        if info.get("k") == "unbounded" and ob["out"] == "hang":
+            out.append((i, "an unbounded producer did not stop when the subscription ended: subscribe() never returned (the run had to be killed)"))
         if info.get("k") != "recover-probed-sibling" or ob["out"] != "ok":
             continue
         seq_ = [(s, j, alive, ll, cur) for (s, j, idx, alive, ll, cur) in [tuple(int(v) for v in pr) for pr in ob["probes"]] if s >= 1000 and idx == 0]
@@ -147,7 +149,7 @@ def generate(rng, tier, focus):
             cases.append((scn(srcs=[src([s0], True)], handles=1, script_=[sub(0, p)]), {"k": "demat-cold"}))
     # unbounded producers
     for _ in range(400 if thorough else 80):
-        p = ["repeat", rng.choice(items)]
+        p = [rng.choice(["repeat", "from_iter_repeat"]), rng.choice(items)]
         if rng.random() < 0.5:
             p = op(rng.choice(["map", "scan", "tap", "materialize"]), {"map": [["add", 1]], "scan": ["add"], "tap": [0], "materialize": []}[p[0]] if False else [], p) if False else p
         cut = rng.choice([("take", [rng.choice([1, 2, 3])]), ("first", []), ("element_at", [rng.choice([1, 2])]), ("take_while", [["false"]]),
